@@ -678,12 +678,22 @@ class NetCDFWrite(IOWrite):
                 create = True
 
         if create:
-            ncvar = self._create_netcdf_variable_name(coord, default=None)
-            if ncvar is None:
+            if (
+                ncdim is not None
+                and self.implementation.nc_get_variable(coord, None) is None
+            ):
                 # No netCDF variable name has been set, so use the
                 # corresponding netCDF dimension name (made unique
-                # within the file)
+                # within the file), in preference to a default name
+                # derived from the standard name
+                if not g["group"]:
+                    # A flat file has been requested, so strip off any
+                    # group structure from the name.
+                    ncdim = self._remove_group_structure(ncdim)
+
                 ncvar = self._netcdf_name(ncdim)
+            else:
+                ncvar = self._create_netcdf_variable_name(coord, default=None)
 
             if ncvar is None:
                 # No netCDF variable name not correponding to a netCDF
